@@ -1,4 +1,5 @@
 import GN.Driver.C10
+import GN.Driver.C11
 import GN.Driver.C12
 import GN.Driver.C16
 import GN.Driver.C18
@@ -15,6 +16,7 @@ def dispatch (line : String) : String :=
   if line.startsWith "#" then "COMMENT" else
   match (line.trimAscii.toString.splitOn " ").filter (· != "") with
   | "C10" :: rest => GN.Driver.C10.handle rest
+  | "C11" :: rest => GN.Driver.C11.handle rest
   | "C12" :: rest => GN.Driver.C12.handle rest
   | "C16" :: rest => GN.Driver.C16.handle rest
   | "C18" :: rest => GN.Driver.C18.handle rest
